@@ -1705,6 +1705,16 @@ func init() {
 	I["(*text/template.Template).Funcs"] = func(m *Machine, fr *frame, fn *ssa.Function, a []Value) Value { return a[0] }
 	I["(*text/template.Template).Option"] = func(m *Machine, fr *frame, fn *ssa.Function, a []Value) Value { return a[0] }
 	I["(*text/template.Template).Parse"] = func(m *Machine, fr *frame, fn *ssa.Function, a []Value) Value {
+		// a concrete text with an action that is never closed ("{{.x", "{{.x}") does not parse: like the
+		// library, Parse then returns a nil template and an error
+		if src, ok := a[1].(Str); ok && src.IsConc() {
+			if i := strings.LastIndex(src.s, "{{"); i >= 0 && !strings.Contains(src.s[i:], "}}") {
+				errPkg := m.eng.prog.ImportedPackage("errors")
+				obj := new(Value)
+				*obj = structV{Str{s: "template: unclosed action"}}
+				return tuple{(*Value)(nil), Iface{T: types.NewPointer(errPkg.Type("errorString").Type()), V: obj}}
+			}
+		}
 		// the source text is remembered: a template without actions renders as its own text
 		if p, ok := a[0].(*Value); ok && p != nil {
 			m.side[p] = a[1]
@@ -1713,6 +1723,9 @@ func init() {
 	}
 	// Execute writes an opaque rendering ("<rendered>") to the writer
 	I["(*text/template.Template).Execute"] = func(m *Machine, fr *frame, fn *ssa.Function, a []Value) Value {
+		if p, ok := a[0].(*Value); !ok || p == nil {
+			m.rtPanic("invalid memory address or nil pointer dereference")
+		}
 		w := a[1].(Iface)
 		if w.T == nil {
 			m.rtPanic("nil writer")
